@@ -177,6 +177,8 @@ const prelude = `(set-option :produce-models true)
 (declare-fun hasinv (Int Int) Bool)
 (declare-fun minv (Int Int) Int)
 (declare-fun gcdf (Int Int) Int)
+(declare-fun itkey (Int Int) Int)
+(declare-fun itdone (Int) Bool)
 (declare-fun isprime (Int) Bool)
 (declare-fun bigand (Int Int) Int)
 (declare-fun bigor (Int Int) Int)
@@ -320,7 +322,7 @@ func solveOb(o *Obligation, qdir string, timeoutS int, thorough bool, expectSat 
 		return r, all, lite
 	}
 	ground := writeQuery(qdir, base+".ground", o.BuildQueryT(false, true, true, true, 2.0))
-	g := runSolver("z3-new", ground, minInt(timeoutS, 4))
+	g := runSolver("z3-new", ground, minInt(timeoutS, 8))
 	g.Solver = "z3-new(ground)"
 	all = append(all, g)
 	if g.Status == "unsat" && !thorough {
